@@ -78,6 +78,18 @@ func broadcasterFacts(s *src, f *facts) {
 			return len(rets) > 0 && strings.Contains(s.str(rets[0]), "ErrClosed")
 		})
 		f.b("bcReceiveRefusesWhenClosed", len(refuse) > 0, s.pos(first(refuse)))
+		// every `return nil, <err>` of Receive itself (not of the returned function) sits in the closed check
+		onlyClosed := len(refuse) > 0
+		for _, r := range allShallow[*ast.ReturnStmt](body(rcv), nil) {
+			if len(r.Results) == 2 && s.str(r.Results[1]) != "nil" {
+				in := false
+				for _, i := range refuse {
+					in = in || contains(i, r)
+				}
+				onlyClosed = onlyClosed && in
+			}
+		}
+		f.b("bcReceiveErrorsOnlyClosed", onlyClosed, s.pos(rcv))
 		// the `if !ok { … }` creation block
 		create := first(allShallow(body(rcv), func(i *ast.IfStmt) bool { return s.str(i.Cond) == "!ok" }))
 		var ctxParam string
